@@ -174,3 +174,51 @@ def run(chk, name, cases, cfg, differs, share=False, restore_vars=True):
     st = chk.extra.setdefault("opt_stats", {})
     st[name] = {"cases": len(cases), "changed_by_optimize": changed, "quirk_arms_fired": fired}
     return disagreements
+
+
+def run_objects(chk, name, items, cfg, judge):
+    """Like `run`, for predicate objects built on the Python side: items = [(description, object)];
+    judge(p, o) returns None or a failure detail (the property on the real code)."""
+    known = {f["quirk"]: f["id"] for f in open_findings(chk.pid) if "quirk" in f}
+    texts, py = [], []
+    for d, p in items:
+        texts.append(S.show(lift.lift(p)))
+        try:
+            o = optimize(p)
+            py.append((o, S.show(lift.lift(o))))
+        except lift.Unliftable as e:
+            py.append((None, f"UNLIFTABLE {e}"))
+        except Exception as e:  # noqa: BLE001
+            py.append((None, f"RAISED {type(e).__name__}"))
+    out = driver.run(f"opt {cfg} {t}" for t in texts)
+    dis = []
+    fired = {}
+    for (d, p), t, (o, ptxt), ans in zip(items, texts, py, out):
+        chk.evaluations += 1
+        if ans == "FUEL" or ans.startswith("ERR"):
+            mtxt, tr = ans, []
+        else:
+            mtxt, trs = ans.rsplit(" ", 1)
+            tr = [x for x in trs.strip("[]").split(",") if x]
+        for q in tr:
+            fired[q] = fired.get(q, 0) + 1
+        agree = mtxt == ptxt
+        if not agree:
+            dis.append({"input": d, "sexp": t, "model": mtxt, "implementation": ptxt, "cfg": cfg})
+        if ptxt != t:
+            chk.nontrivial.add(t)
+        if o is None:
+            chk.add_failure(d, {"optimized": ptxt}, None)
+            continue
+        w = judge(p, o)
+        if w is not None:
+            expl = None
+            if agree:
+                for q in tr:
+                    if q in known:
+                        expl = known[q]
+                        break
+            chk.add_failure(d, {"optimized": ptxt, **w, "model_trace": tr}, expl)
+    chk.add_corr(name, len(items), dis)
+    chk.extra.setdefault("opt_stats", {})[name] = {"cases": len(items), "quirk_arms_fired": fired}
+    return dis
